@@ -238,7 +238,7 @@ func checkC09(p *Prog, l *Ledger) {
 		l.Discharge("C09/S2-nothing-dropped", "scanToken", "", fmt.Sprintf("every path: one token | diagnostics and no token | a documented skip (%d graph nodes)", len(g.Out)), true)
 		l.Discharge("C09/S4-newline-accounting", "scanToken", "", fmt.Sprintf("%d consumption sites and %d line increments: every possibly-newline rune is paired with exactly one increment", nCons, nLine), true)
 	}
-	if nCons < 8 || nLine < 3 {
+	if nCons < 8 || nLine < 2 {
 		l.Violate("C09/S4-newline-accounting/vacuity", "scanToken", "", fmt.Sprintf("only %d consumption sites / %d line increments seen", nCons, nLine))
 	}
 	// unsafe advances belong to C07/C08 but are reported here too (a panic drops everything)
@@ -285,7 +285,7 @@ func checkMunchTable(p *Prog, l *Ledger, g *Graph) {
 		defer delete(seen, n)
 		for _, e := range g.Out[n] {
 			if e.Ev == nil {
-				walk(e.To, first, path, depth+1, seen)
+				walk(e.To, first, path, depth, seen) // ε edges (tests that emit nothing) do not count towards the depth
 				continue
 			}
 			switch e.Ev.Op {
@@ -293,8 +293,8 @@ func checkMunchTable(p *Prog, l *Ledger, g *Graph) {
 				if first == "" {
 					walk(e.To, e.Ev.Args[0], "", depth+1, seen)
 				}
-			case "consume":
-				walk(e.To, first, path, depth+1, seen)
+			case "consume", "maplookup", "has":
+				walk(e.To, first, path, depth+1, seen) // a table lookup decides nothing by itself: what follows does
 			case "match":
 				if first == "" {
 					continue
@@ -411,6 +411,9 @@ func checkMunchTable(p *Prog, l *Ledger, g *Graph) {
 		}
 		_, a := oneCharTokens[rr[0]]
 		_, b := twoCharTokens[rr[0]]
+		if rr[0] == '_' && len(table[first]) == 1 && strings.HasPrefix(table[first][""], "<scan:") {
+			continue // `_` starts an identifier like a letter does (documented); the classifier singles it out by an equality test
+		}
 		if !a && !b && !strings.ContainsRune(" \t\r\n\"", rr[0]) {
 			l.Violate(rule, "scanToken#"+first, "", fmt.Sprintf("the scanner has a clause for %s (%v) that the lexical grammar does not document", first, table[first]))
 		}
@@ -430,6 +433,11 @@ func checkKeywords(p *Prog, l *Ledger, g *Graph) {
 			}
 			k, ok1 := mu.Key.(*ssa.Const)
 			v, ok2 := constInt(mu.Value)
+			// the keyword table is the table of *words*: string keys (other tables of the scanner, e.g. one from runes to
+			// token types, are not keyword tables)
+			if mt, isMap := mu.Map.Type().Underlying().(*types.Map); !isMap || !types.Identical(mt.Key().Underlying(), types.Typ[types.String]) {
+				return
+			}
 			if ok1 && ok2 && k.Value != nil {
 				s, _ := strconv.Unquote(k.Value.ExactString())
 				got[norm.NFC.String(s)] = names[v]
